@@ -95,17 +95,13 @@ func (p *wat2arm64Worker) findLocalType(fn *ast.Func, ident string) token.Token 
 	}
 
 	if idx, err := strconv.Atoi(ident); err == nil {
-		if idx < 0 || idx >= len(fn.Type.Params)+len(fn.Type.Results)+len(fn.Locals) {
+		if idx < 0 || idx >= len(fn.Type.Params)+len(fn.Locals) {
 			panic(fmt.Sprintf("wat2la: unknown local %q", ident))
 		}
 		if idx < len(fn.Type.Params) {
 			return fn.Type.Params[idx].Type
 		}
 		idx = idx - len(fn.Type.Params)
-		if idx < len(fn.Type.Results) {
-			return fn.Type.Results[idx]
-		}
-		idx = idx - len(fn.Type.Results)
 		return fn.Locals[idx].Type
 	}
 	for _, arg := range fn.Type.Params {
